@@ -17,7 +17,7 @@ from .. import observe as ob
 from . import c05
 
 PROP = "C09"
-RUNS = {"quick": 8000, "thorough": 500000}
+RUNS = {"quick": 8000, "thorough": 250000}
 WALL = {"quick": 280, "thorough": 3500}
 RULE = ("one run = document + history of adds/renames to fresh and used identifiers + removals; "
         "distinct = distinct (namespace digest, op) pairs")
